@@ -76,7 +76,7 @@ func (Engine) Generate(r *core.Rng, property, tier string) *core.Plan {
 		g.on["mempool"] = true
 	} else if property == "C34" && r.Bool(0.6) || r.Bool(0.1) {
 		// a small size limit so eviction by fee rate happens within a short run
-		p.SetKnob("poolmax", r.LogUniform(300, 6000))
+		p.SetKnob("poolmax", r.LogUniform(250, 1500))
 	}
 	// a short funding prologue so several actors own mature outputs
 	for i := int64(0); i < p.Knob("maturity", 2); i++ {
@@ -216,10 +216,13 @@ func (g *gen) step() {
 		g.p.Add(g.mutStep())
 		return
 	}
-	if g.poolHeavy && r.Bool(0.55) {
-		if r.Bool(0.8) {
+	if g.poolHeavy && r.Bool(0.6) {
+		if r.Bool(0.9) {
 			t := g.tx()
-			if r.Bool(0.25) {
+			if r.Bool(0.6) {
+				t = g.goodTx() // fill the pool: eviction needs it to reach its limit
+			}
+			if r.Bool(0.15) {
 				t.InKind = 6 // collide with a pooled transaction's outpoint
 			}
 			if r.Bool(0.5) {
